@@ -417,7 +417,9 @@ class Env:
                 # the caller of send() gives up (a timeout around the call): its task is cancelled wherever it is
                 t = self.send_tasks.get(op[1])
                 if t is not None and not t.done():
-                    self.rec.emit("apiCancel", op[1], ticks(self.loop.time()))
+                    # the recorder's name of the cancelled task (None: it has not run a block yet) ties the cancellation to the
+                    # task identity used in the step records (sockobs.validation_lines -> `vl cancel <hid>`)
+                    self.rec.emit("apiCancel", op[1], self.rec.names.get(t), ticks(self.loop.time()))
                     t.cancel()
             elif k == "adv":
                 await asyncio.sleep(op[1] * TICK)
